@@ -585,7 +585,10 @@ class Ctx:
               'coverage': cov,
               'assumptions': assumptions or [],
               'wall_s': round(time.time() - self.t0, 2), 'violations': violations}
-        edir = os.path.join(VERIF, 'evidence' if not getattr(self, 'dev', False) else '.work')
+        # evidence/ describes /repo itself: a development run (--no-audit) or a self-test run against a patched
+        # copy of chi (CHI_SRC) writes to .work/ instead
+        on_repo = os.path.realpath(CHI_SRC) == os.path.realpath('/repo')
+        edir = os.path.join(VERIF, 'evidence' if (on_repo and not getattr(self, 'dev', False)) else '.work')
         os.makedirs(edir, exist_ok=True)
         with open(os.path.join(edir, prop + '.json'), 'w') as fh:
             json.dump(ev, fh, indent=1, sort_keys=True)
